@@ -318,10 +318,13 @@ type Type struct {
 
 	YangType *YangType
 
-	// resolveFailed is set when the last attempt to resolve YangType
-	// reported errors; such a type is resolved again by the next call, so
-	// that the errors are reported again, against the modules loaded then.
-	resolveFailed bool
+	// resolveErrs are the errors reported when YangType was resolved, and
+	// resolveRun the Process call (see typeDictionary.run) during which that
+	// happened. Within that run they are reported again by every further
+	// call of resolve; a later run resolves the type afresh, against the
+	// modules loaded then.
+	resolveErrs []error
+	resolveRun  int
 }
 
 func (Type) Kind() string             { return "type" }
